@@ -65,7 +65,10 @@ def extras(rng):
             "old_tag": rng.choice([None, "1.2.0", "1.2.3", "1.3.0", "1.3.0"]), "ignore_vcs_tag": rng.random() < 0.12,
             "novcs": rng.random() < 0.06,
             "noise": rng.choice([[], [], [], ["-v"], ["--pin-increments"], ["--tag-scope", "global"], ["--tag", "final"]]),
-            "syntax": rng.choice(["toml", "cfg"])}
+            "syntax": rng.choice(["toml", "cfg"]),
+            # started from inside another release's hook (or a CI job that exports them): the variables are already set
+            "inherited_env": rng.choice([None, None, None, None, {"BUMPVER_OLD_VERSION": "0.9.0", "BUMPVER_NEW_VERSION": "0.9.1"},
+                                         {"BUMPVER_NEW_VERSION": "7.7.7"}, {"BUMPVER_OLD_VERSION": ""}])}
 
 
 def build_world(cfg):
@@ -352,11 +355,13 @@ class Lattice:
         cfg = case["cfg"]
         exp = expectation(cfg)
         d, repo, plan, argv, cfgname = build_world(cfg)
-        res = invoker.invoke(d, argv, TODAY, fakevcs.VcsShim(repo), fakevcs.HookShim(plan))
+        res = invoker.invoke(d, argv, TODAY, fakevcs.VcsShim(repo), fakevcs.HookShim(plan), environ=cfg.get("inherited_env"))
         ctx.invocations += 1
         roles = [(e.get("role") or "hook:" + e["path"], e.get("rc")) for e in res.events]
         ctx.event("update", argv, res.exit_code, roles, invoker.digest_snapshot(res.after), repo.digest())
         analyse(cfg, exp, res, ctx, None, cfgname)
+        if cfg.get("inherited_env") and any(e["kind"] == "hook" for e in res.events):
+            ctx.probe("hook_with_inherited_version_variables")
         ctx.state((case["point"] // 4,))
         ctx.transition((tuple(r for r, _ in roles if not r.startswith("probe")), res.exit_code))
         if exp["reject"] or any(e["kind"] == "hook" or e["role"] in STEP_ROLES for e in res.events) or cfg["dry"]:
@@ -415,7 +420,7 @@ class FailPos:
         cfg = case["cfg"]
         exp = expectation(cfg)
         d, repo, plan, argv, cfgname = build_world(cfg)
-        res0 = invoker.invoke(d, argv, TODAY, fakevcs.VcsShim(repo), fakevcs.HookShim(plan))
+        res0 = invoker.invoke(d, argv, TODAY, fakevcs.VcsShim(repo), fakevcs.HookShim(plan), environ=cfg.get("inherited_env"))
         ctx.invocations += 1
         K = sum(1 for e in res0.events if e["kind"] == "vcs")
         analyse(cfg, exp, res0, ctx, None, cfgname)
@@ -441,7 +446,7 @@ class FailPos:
             else:
                 fault = fakevcs.Fault.from_json(fp)
             d, repo, plan, argv, cfgname = build_world(cfg2)
-            res = invoker.invoke(d, argv, TODAY, fakevcs.VcsShim(repo, fault), fakevcs.HookShim(plan))
+            res = invoker.invoke(d, argv, TODAY, fakevcs.VcsShim(repo, fault), fakevcs.HookShim(plan), environ=cfg.get("inherited_env"))
             ctx.invocations += 1
             roles = [(e.get("role") or "hook:" + e["path"], e.get("rc")) for e in res.events]
             ctx.event("fault", fp, res.exit_code, roles, invoker.digest_snapshot(res.after), repo.digest())
@@ -518,7 +523,8 @@ class RealSteps:
         rng = runner.rng_for(seed, self.name, index)
         return {"pre": rng.choice(["absent", "ok", "ok", "fail"]), "post": rng.choice(["absent", "ok", "ok", "fail"]),
                 "tag": rng.random() < 0.8, "push": rng.random() < 0.5, "remote": rng.random() < 0.7,
-                "hook_src": rng.choice(["config", "cli"]), "dry": rng.random() < 0.15, "ops": [{"op": "update"}]}
+                "hook_src": rng.choice(["config", "cli"]), "dry": rng.random() < 0.15, "ops": [{"op": "update"}],
+                "inherited_env": rng.choice([None, None, {"BUMPVER_OLD_VERSION": "0.9.0", "BUMPVER_NEW_VERSION": "0.9.1"}])}
 
     def run(self, case, ctx):
         from sim import realgit
@@ -550,7 +556,8 @@ class RealSteps:
         rg = realgit.RealGit(d, TODAY, remote=case["remote"])
         rg.init()
         head0 = rg.head()
-        res = invoker.invoke(d, argv, TODAY, fakevcs.VcsShim(None, forward_env=rg.env), realgit.PassthroughHooks())
+        res = invoker.invoke(d, argv, TODAY, fakevcs.VcsShim(None, forward_env=rg.env), realgit.PassthroughHooks(),
+                             environ=case.get("inherited_env"))
         ctx.invocations += 1
         lines = []
         if os.path.exists(log):
